@@ -9,8 +9,8 @@
    explored by harness/c12.py, not proved. *)
 From Coq Require Import String List Bool ZArith Arith.
 Import ListNotations.
-Require Import PV.Total.Emit PV.Total.Dispatch PV.Total.Ops PV.Gen.Total.
-Require Import PV.Proofs.TotalEmit PV.Proofs.TotalOps PV.Proofs.TotalGen.
+Require Import PV.Total.Emit PV.Total.Dispatch PV.Total.Ops PV.Total.Column PV.Gen.Total.
+Require Import PV.Proofs.TotalEmit PV.Proofs.TotalOps PV.Proofs.TotalGen PV.Proofs.TotalColumn.
 Open Scope list_scope.
 
 (* 1. show_error: a line number inside the file is rendered without raising, every
@@ -52,6 +52,28 @@ Definition C12_emit_full_statement : Prop := emit_full_statement.
 Theorem C12_emit_full_statement_refuted : ~ C12_emit_full_statement.
 Proof. exact emit_full_statement_refuted. Qed.
 Print Assumptions C12_emit_full_statement_refuted.
+
+(* 2b. the column: `ast` reports the UTF-8 byte offset.  For a line of ASCII characters it is
+       the character position, hence inside the line; in general it is never left of the
+       character and exceeds it by exactly the extra bytes of the wide characters before the
+       node -- so it can leave the line (known finding C12-column-byte-offset, guard
+       `all_ascii line = false`) *)
+Definition C12_col_in_line_full_statement : Prop := col_in_line_full_statement.
+Theorem C12_col_in_line_refuted : ~ C12_col_in_line_full_statement.
+Proof. exact col_in_line_refuted. Qed.
+Print Assumptions C12_col_in_line_refuted.
+
+Theorem C12_col_in_line_partial : forall ws k, all_ascii ws = true -> (k <= length ws)%nat -> col_in_line ws k = true.
+Proof. exact col_in_line_ascii. Qed.
+Print Assumptions C12_col_in_line_partial.
+
+Theorem C12_col_is_position_plus_extra_bytes : forall ws k, wellformed_widths ws = true -> (k <= length ws)%nat ->
+  (k <= reported_col ws k)%nat /\
+  reported_col ws k = (k + fold_right (fun w acc => (w - 1) + acc) 0 (firstn k ws))%nat.
+Proof.
+  intros ws k Hw Hk. split; [apply col_not_left_of_character; assumption|apply byte_offset_firstn; assumption].
+Qed.
+Print Assumptions C12_col_is_position_plus_extra_bytes.
 
 (* 3. Python subscripting *)
 Theorem C12_py_index_defined_iff : forall (A : Type) (l : list A) i,
